@@ -187,7 +187,8 @@ def family_case(draw, max_leaves=3):
     b = draw(operand(max_leaves=max_leaves))
     mentioned = sorted({x["var"] for x in expr_atoms(a) + expr_atoms(b)}) or ["os_name"]
     k = draw(st.sampled_from([1, 1, 2, 2, 3]))
-    names = draw(st.lists(st.sampled_from(mentioned + ["os_name", "extra"]), min_size=1, max_size=k, unique=True))
+    # mentioned variables plus unmentioned ones, among them names that contain / are contained in a mentioned one
+    names = draw(st.lists(st.sampled_from(mentioned + ["os_name", "extra", "extras", "platform_version", "python_version"]), min_size=1, max_size=k, unique=True))
     return {"a": a, "b": b, "names": names}
 
 
